@@ -2,11 +2,15 @@
 From Coq Require Import List NArith ZArith Bool.
 From SK Require Import lib.LGraph lib.Mono.
 From SK Require model.C06_Model model.C11_Model.
-From SK Require Import model.C03_Model model.C05_Model proof.C05_Proof proof.C05_Glue proof.C05_Pipe proof.C05_Prep proof.C05_Comp proof.C05_Main proof.C05_Order proof.C05_Sub proof.C05_Set proof.C05_Result proof.C05_AllStrat proof.C05_PrepOrder proof.C05_Final proof.C05_Default proof.C05_Rewrite proof.C05_Capstone proof.C05_Refuted.
+From SK Require Import model.C03_Model model.C05_Model proof.C05_Proof proof.C05_Glue proof.C05_Pipe proof.C05_Prep proof.C05_Comp proof.C05_Main proof.C05_Order proof.C05_Sub proof.C05_Set proof.C05_Result proof.C05_AllStrat proof.C05_PrepOrder proof.C05_Final proof.C05_Default proof.C05_Rewrite proof.C05_Capstone proof.C05_Refuted proof.C05_Cap.
 From SK Require Import lib.C06_Spec proof.C06_Comp.
 From SK Require proof.C11_Dedup.
 From Coq Require Import Permutation.
 Import ListNotations.
+
+Section WithThr.
+Context {TH : Thr}.
+
 
 Lemma thm_vocabulary :
   (forall f, inj f <-> forall a b : N, f a = f b -> a = b) /\
@@ -22,14 +26,14 @@ Lemma thm_vocabulary :
   (forall host p, side_okb host p = true ->
      p_flag p = false /\ gwf (host_c06 host) /\ gwf (pat_c06 (p_pat p)) /\
      (C06_Model.lenN (C06_Model.monos_on (host_c06 host) (pat_c06 (p_pat p))
-                        (node_ids (host_c06 host)) (node_ids (pat_c06 (p_pat p)))) <= DEFAULT_THRESHOLD)%N /\
+                        (node_ids (host_c06 host)) (node_ids (pat_c06 (p_pat p)))) <= thr_val)%N /\
      NoDup (node_ids (p_rc p)) /\ simple_edgesb (gedges (p_rc p)) = true /\
      (forall a b x, In (a, b, x) (gedges (p_rc p)) -> In a (node_ids (p_rc p)) /\ In b (node_ids (p_rc p))) /\
      (forall u, In u (node_ids (p_pat p)) -> In u (node_ids (p_rc p)))) /\
   (* [side_okb_c] (what the run function evaluates) = [side_okb] and the component-aware bound of the C06 specification *)
   (forall host p, side_okb_c host p = true ->
      side_okb host p = true /\
-     (comp_bound (C06_Model.monos_on (host_c06 host) (pat_c06 (p_pat p))) true (host_c06 host) (pat_c06 (p_pat p)) <= DEFAULT_THRESHOLD)%N).
+     (comp_bound (C06_Model.monos_on (host_c06 host) (pat_c06 (p_pat p))) true (host_c06 host) (pat_c06 (p_pat p)) <= thr_val)%N).
 Proof. exact vocabulary_c. Qed.
 
 Lemma thm_glue_equivariant :
@@ -123,9 +127,9 @@ Proof. split; [exact matches_all_host_order | exact matches_all_rewriting]. Qed.
 Lemma thm_strategy_subset :
   forall (host : hostg) (pat : molg),
     gwf (host_c06 host) -> gwf (pat_c06 pat) ->
-    (comp_bound (C06_Model.monos_on (host_c06 host) (pat_c06 pat)) true (host_c06 host) (pat_c06 pat) <= DEFAULT_THRESHOLD)%N ->
+    (comp_bound (C06_Model.monos_on (host_c06 host) (pat_c06 pat)) true (host_c06 host) (pat_c06 pat) <= thr_val)%N ->
     (C06_Model.lenN (C06_Model.monos_on (host_c06 host) (pat_c06 pat) (node_ids (host_c06 host)) (node_ids (pat_c06 pat)))
-       <= DEFAULT_THRESHOLD)%N ->
+       <= thr_val)%N ->
     forall m, In m (matches 1%N host pat) -> exists m', In m' (matches 0%N host pat) /\ Permutation m m'.
 Proof. exact comp_subset_all. Qed.
 
@@ -279,8 +283,66 @@ Lemma thm_pipeline_checked_default :
        exists T, In T (glued_of strat host0 (prep_default inv tpl0)) /\ obs_eq (relabel (apply_map pi) T) T').
 Proof. intros strat Hst inv host0 host tpl0 tpl pi sg. exact (pipeline_checked_default strat inv host0 host tpl0 tpl pi sg Hst). Qed.
 
+End WithThr.
+
 Lemma thm_bt_equals_comp_explicit_path_refuted :
   exists (host : hostg) (p : prepared),
-    p_flag p = true /\ raw_of 1%N host p <> [] /\
-    length (glued_of 1%N host p) = 2%nat /\ length (glued_of 2%N host p) = 4%nat.
+    p_flag p = true /\ @raw_of (thr_of None) 1%N host p <> [] /\
+    length (@glued_of (thr_of None) 1%N host p) = 2%nat /\ length (@glued_of (thr_of None) 2%N host p) = 4%nat.
 Proof. exact bt_explicit_path_refuted. Qed.
+
+(** ** the embedding cap (proof/C05_Cap.v) *)
+Lemma thm_embed_threshold_option :
+  eff_thr None = 5000%N /\ (forall k, eff_thr (Some k) = k) /\ eff_thr (Some 0%N) = 0%N /\
+  (forall o, @thr_val (thr_of o) = eff_thr o) /\
+  (forall (TH : Thr) strat host pat, (C06_Model.lenN (matches strat host pat) <= thr_val)%N) /\
+  (forall (TH : Thr) strat host pat, thr_val = 0%N -> matches strat host pat = []).
+Proof.
+  destruct eff_thr_spec as (A & B & C & D). repeat split; try assumption.
+  - intros TH. apply matches_le_cap.
+  - intros TH. apply cap_zero.
+Qed.
+
+Lemma thm_cap_all_or_nothing :
+  forall (TH : Thr),
+  (forall host pat,
+     matches 0%N host pat = if (thr_val <? C06_Model.lenN (enum_all host pat))%N then [] else enum_all host pat) /\
+  (forall host pat,
+     matches 1%N host pat = [] \/
+     matches 1%N host pat = C06_Comp.comp_unl (C06_Model.monos_on (host_c06 host) (pat_c06 pat)) true (host_c06 host) (pat_c06 pat)) /\
+  (forall host pat,
+     matches 2%N host pat = [] \/
+     matches 2%N host pat = C06_Comp.comp_unl (C06_Model.monos_on (host_c06 host) (pat_c06 pat)) true (host_c06 host) (pat_c06 pat) \/
+     matches 2%N host pat = enum_all host pat) /\
+  (forall host p, (thr_val < C06_Model.lenN (enum_all host (p_pat p)))%N ->
+     raw_of 0%N host p = [] /\ kept_of 0%N host p = [] /\ glued_of 0%N host p = [] /\
+     forall ex, results_of ex 0%N host p = Some []).
+Proof.
+  intros TH. split; [apply all_or_nothing_all|]. split; [apply all_or_nothing_comp|]. split; [apply all_or_nothing_bt|].
+  apply capped_results.
+Qed.
+
+Lemma thm_cap_decision_invariant :
+  (forall (host host' : hostg) (pat : molg), same_graph host host' ->
+     C06_Model.lenN (enum_all host' pat) = C06_Model.lenN (enum_all host pat)) /\
+  (forall (sg pi : N -> N), inj sg -> inj pi ->
+   forall (host host' : hostg) (pat : molg), same_graph (relabel pi host) host' ->
+     C06_Model.lenN (enum_all host' (relabel sg pat)) = C06_Model.lenN (enum_all host pat)) /\
+  (forall (TH : Thr) (sg pi : N -> N), inj sg -> inj pi ->
+   forall (host host' : hostg) (pat : molg), same_graph (relabel pi host) host' ->
+     (thr_val < C06_Model.lenN (enum_all host pat))%N ->
+     matches 0%N host pat = [] /\ matches 0%N host' (relabel sg pat) = []).
+Proof.
+  split; [intros host host' pat HS; symmetry; apply enum_all_count_host_order; exact HS|].
+  split; [intros sg pi Hs Hp host host' pat HS; apply (capped_invariant sg pi); assumption|].
+  intros TH sg pi Hs Hp host host' pat HS Hlt. rewrite !all_or_nothing_all.
+  rewrite (capped_invariant sg pi Hs Hp host host' pat HS). apply N.ltb_lt in Hlt. rewrite Hlt. split; reflexivity.
+Qed.
+
+Lemma thm_comp_subset_capped_refuted :
+  exists (host : hostg) (p : prepared),
+    length (@glued_of (thr_of None) 0%N host p) = 4%nat /\ length (@glued_of (thr_of None) 1%N host p) = 2%nat /\
+    p_flag p = false /\ @glued_of (thr_of (Some 3%N)) 0%N host p = [] /\
+    length (@glued_of (thr_of (Some 3%N)) 1%N host p) = 2%nat /\
+    @glued_of (thr_of (Some 3%N)) 2%N host p = @glued_of (thr_of (Some 3%N)) 1%N host p.
+Proof. exact comp_subset_capped_refuted. Qed.
